@@ -264,3 +264,16 @@ PROPS["C14"] = Prop(
     trusted=_slv_trust, histogram=_slv_hist,
     oracle_tokens=["ORACLE_SPECIES_MAP_NOT_A_BIJECTION", "ORACLE_TOLERANCE_NOT_BY_NAME", "ORACLE_CONFIGS_DISAGREE",
                    "ORACLE_REORDERING_NOT_A_PERMUTATION"])
+
+PROPS["C15"] = Prop(
+    "C15",
+    family_driver={"ratec": ("drv_rateconst", "plain")},
+    model_families={"ratec"},
+    generate=lambda rng, tier: G.gen_ratec(rng, tier),
+    rule="built solvers with 1-6 reactions mixing probe rate constants (0-3 custom parameters, encoding their id, the "
+         "cell's temperature and pressure and their own parameters), user-defined and Arrhenius constants, 0-2 parameterised "
+         "reactants each; row-major and grouped L=1..5, every cell count 1..3L+1; parameters set by label (reverse order) or "
+         "positionally; distinct integer values per (cell, column); the whole rate-constant storage compared incl. padding",
+    trusted=COMMON_TRUST + ["probe RateConstant subclass (harness only)"],
+    assumptions=["built-in formulas (exp/pow/log10) are oracles in the theorem; they are not compared here"],
+)
